@@ -110,6 +110,9 @@ def observed_schedule(ctx, sched, orig, sim_time, workload, worker_pools):
     from . import z3probe
 
     z3probe.maybe_probe(ctx, sim_time, workload, worker_pools)
+    from . import preemptprobe
+
+    preemptprobe.maybe_probe(ctx, sim_time, workload, worker_pools)
     return placements
 
 
